@@ -50,6 +50,9 @@ pub struct Case {
     /// index into NAMES (the file's basename)
     #[serde(default)]
     pub name_idx: u8,
+    /// an upload is also given -rd <dir> (meaningless for an upload); a decoy of the same relative name sits in that directory
+    #[serde(default)]
+    pub upload_rd: bool,
 }
 
 /// basenames: lower case, upper and mixed case, several dots, no extension, digits/dash/underscore
@@ -154,6 +157,11 @@ fn run_case(dir: &Path, c: &Case) -> Result<(), (String, String)> {
     }
     if c.upload {
         cargs.push(wire::s("-u"));
+        if c.upload_rd {
+            std::fs::write(cout.join(&rel_unix), b"decoy: not the file named on the command line").unwrap();
+            cargs.push(wire::s("-rd"));
+            cargs.push(if c.abs_rd { cout.to_string_lossy().to_string() } else { wire::s("out") });
+        }
     } else {
         cargs.push(wire::s("-d"));
         cargs.push(wire::s("-rd"));
@@ -231,6 +239,7 @@ pub fn judge(dir: &Path, c: &Case, obs: &mut Obs) -> Judge {
     obs.class_if(blocks > 65535, "beyond-65535-blocks");
     obs.class_if(c.stale_dest && c.refusal == Refusal::None, "older-longer-file-at-destination");
     obs.class_if(c.server_dup > 0, "server-duplicate-packets");
+    obs.class_if(c.upload && c.upload_rd, "upload-with-receive-directory-flag");
     obs.class_if(NAMES[c.name_idx as usize % NAMES.len()].chars().any(|ch| ch.is_ascii_uppercase()), "upper-case-in-name");
     obs.class_if(c.len % c.blk == 0 && c.len > 0, "exact-multiple");
     obs.nontrivial = c.blk != 512 || c.ws != 1 || blocks >= 2;
@@ -320,6 +329,7 @@ pub fn strategy() -> BoxedStrategy<Case> {
                 // (254 copies: the server is busy for a quarter of a second per packet - a slow but loss-free peer for the client's timers)
                 server_dup: if seed % 5 == 1 && blocks <= 3 && blocks >= 1 && seed % 3 == 0 { 254 } else if seed % 5 == 1 && blocks <= 12 { [1u8, 2, 3, 10][(seed / 5 % 4) as usize] } else { 0 },
                 name_idx: if seed % 3 == 2 { (seed / 3 % 7) as u8 } else { 0 },
+                upload_rd: seed % 4 == 3,
             }
         })
         .boxed()
@@ -345,11 +355,12 @@ pub fn wrap_cases() -> Vec<Case> {
             keep: false,
             server_dup: 0,
             name_idx: 0,
+            upload_rd: false,
         });
     }
     // exactly 65536 blocks (the block count itself wraps a 16-bit counter)
     for upload in [true, false] {
-        out.push(Case { single: false, ipv6: false, upload, style: Style::Plain, blk: 8, ws: 64, timeout: 2, len: 65535 * 8 + 5, refusal: Refusal::None, abs_rd: true, seed: 16, stale_dest: false, keep: false, server_dup: 0, name_idx: 0 });
+        out.push(Case { single: false, ipv6: false, upload, style: Style::Plain, blk: 8, ws: 64, timeout: 2, len: 65535 * 8 + 5, refusal: Refusal::None, abs_rd: true, seed: 16, stale_dest: false, keep: false, server_dup: 0, name_idx: 0, upload_rd: false });
     }
     out
 }
@@ -365,7 +376,7 @@ fn grid() -> Vec<Case> {
             }
             for upload in [false, true] {
                 for single in [false, true] {
-                    out.push(Case { single, ipv6: false, upload, style: Style::Plain, blk, ws, timeout: 3, len, refusal: Refusal::None, abs_rd: false, seed: 1400 + len as u64, stale_dest: false, keep: false, server_dup: 0, name_idx: ((len + blk) % 7) as u8 });
+                    out.push(Case { single, ipv6: false, upload, style: Style::Plain, blk, ws, timeout: 3, len, refusal: Refusal::None, abs_rd: false, seed: 1400 + len as u64, stale_dest: false, keep: false, server_dup: 0, name_idx: ((len + blk) % 7) as u8, upload_rd: false });
                 }
             }
         }
@@ -374,7 +385,7 @@ fn grid() -> Vec<Case> {
 }
 
 pub fn run(ctx: &Ctx) {
-    ctx.set_rule("the real tftpc is run against the real tftpd. Deterministic grid: 9 sizes around block/window boundaries x 6 (blksize, windowsize) pairs x direction x port mode. Random: {download, upload} x {single, multi port} x {IPv4, IPv6 loopback if available} x {plain, nested, Windows-style path} x basenames {lower, UPPER, MiXeD case, several dots, no extension} x blksize 8..65464 x windowsize 1..65535 x timeout 1..255 x file sizes {0, 1, blk-1, blk, blk+1, W*blk, (W+1)*blk, 2W*blk+r, random} (one burst kept below 100 KB), x server --duplicate-packets {0,1,2,3,10} x client --keep-on-error x an older, longer file at the destination, plus refusals (missing file, existing file without overwrite, read-only server), plus two >65535-block transfers at blksize 8. Oracle after tftpc exits: byte-identical files on both sides; a download is stored at <receive-directory>/<basename>, an upload at <server receive dir>/<basename>; on refusal no file appears on the client side, the server's file is untouched and tftpc's stderr reports the error; tftpc ends within the watchdog (40 s, 120 s for the long transfers). Non-trivial = non-default options or >= 2 blocks; distinct = distinct cases. Failures are re-run once in isolation.");
+    ctx.set_rule("the real tftpc is run against the real tftpd. Deterministic grid: 9 sizes around block/window boundaries x 6 (blksize, windowsize) pairs x direction x port mode. Random: {download, upload} x {single, multi port} x {IPv4, IPv6 loopback if available} x {plain, nested, Windows-style path} x basenames {lower, UPPER, MiXeD case, several dots, no extension} x blksize 8..65464 x windowsize 1..65535 x timeout 1..255 x file sizes {0, 1, blk-1, blk, blk+1, W*blk, (W+1)*blk, 2W*blk+r, random} (one burst kept below 100 KB), x server --duplicate-packets {0,1,2,3,10} x client --keep-on-error x an older, longer file at the destination x uploads that also carry -rd (with a decoy of the same name in that directory), plus refusals (missing file, existing file without overwrite, read-only server), plus two >65535-block transfers at blksize 8. Oracle after tftpc exits: byte-identical files on both sides; a download is stored at <receive-directory>/<basename>, an upload at <server receive dir>/<basename>; on refusal no file appears on the client side, the server's file is untouched and tftpc's stderr reports the error; tftpc ends within the watchdog (40 s, 120 s for the long transfers). Non-trivial = non-default options or >= 2 blocks; distinct = distinct cases. Failures are re-run once in isolation.");
     ctx.assume("absolute local paths for tftpc -u are outside the generator (the client opens them relative to its cwd; the property quantifies over relative, nested and Windows-style paths)");
     ctx.assume("windowsize x blksize above the loopback socket buffer is exercised in the simulator and by C09's model client with an enlarged receive buffer, not with tftpc (kernel drops would make the run depend on timing)");
     let dirs = DirPool::new(ctx, "c14");
